@@ -1303,8 +1303,16 @@ func execAnotherModule(vm *r.VM, libInfo r.LibNameInfo) (*r.Module, error) {
 
 		// the module's blocks have ended and its names are gone: keep its methods and types
 		// in its own scope, so that an imported method can still use them when it is called
-		for name, val := range module.GetAllExportValues() {
-			if err := vm.DeclareConstElement(r.NewIDName(name), val); err != nil {
+		// (in a fixed order: when two of them clash with names the module imported itself,
+		// the name reported in the error must not depend on Go's map iteration order)
+		exportValues := module.GetAllExportValues()
+		exportNames := make([]string, 0, len(exportValues))
+		for name := range exportValues {
+			exportNames = append(exportNames, name)
+		}
+		sort.Strings(exportNames)
+		for _, name := range exportNames {
+			if err := vm.DeclareConstElement(r.NewIDName(name), exportValues[name]); err != nil {
 				return nil, WrapRuntimeError(vm, err)
 			}
 		}
